@@ -179,6 +179,23 @@ def run(rep, tier):
                     if not okls:
                         break
                 if okls:
+                    # a scalar taken from ANOTHER sandbox object of a different type must be read with its own width and encoding and
+                    # converted - never by copying sizeof(destination) raw bytes from the source's address
+                    T_ = ((f.get("ctargt") or [None])[0]) or {}     # tainted_volatile<T, T_Sbx>
+                    from .c11 import unwrapped_type_name
+                    U_ = unwrapped_type_name(f["params"][0].get("t")) if f["params"] else ""
+                    bulk_ = [e for p in ps for e in p.events if e.kind == "CALL" and q.short(e.a) in ("memcpy", "memmove", "__builtin_memcpy")]
+                    if bulk_ and T_.get("k") in ("int", "bool", "enum", "float") and "tainted_volatile" in ((f["params"][0].get("t") or {}).get("c") or ""):
+                        try:
+                            st_, su_ = abi.size_align(db, T_.get("u") or T_.get("c"), a)[0], abi.size_align(db, U_, a)[0]
+                        except abi.Unknown:
+                            st_ = su_ = None
+                        if st_ is not None and (st_ != su_ or (T_.get("u") or T_.get("c")) != U_):
+                            okls = False
+                            rep.violation("R-C07-loadstore", site(f) + " [byte copy between objects of different types]", "a '%s' in sandbox memory (%d bytes) is assigned from a '%s' in sandbox memory (%d bytes) by copying raw "
+                                          "bytes: the source is not read with the width and encoding of ITS type (neighbouring bytes become part of the value, no sign extension, no range check)" % (
+                                              T_.get("u") or T_.get("c"), st_, U_, su_), bulk_[0].loc, inst)
+                if okls:
                     rep.ok("R-C07-loadstore", site(f), "writes only its own storage", inst)
             if f["n"] == "rlbox::tainted_volatile::get_raw_value" and any((fl.get("n") == "data") for fl in (db.rec_by_id.get(f.get("rid")) or {}).get("fields", [])):
                 n["loadstore"] += 1
